@@ -165,4 +165,10 @@ class SigmaValidator:
         :return: A list of SigmaValidationIssue objects describing potential issues.
         :rtype: list[SigmaValidationIssue]
         """
-        return [issue for rule in rules for issue in self.validate_rule(rule)] + self.finalize()
+        try:
+            issues = [issue for rule in rules for issue in self.validate_rule(rule)]
+        except BaseException:
+            # an aborted run must not leave what the validators have seen so far to the next run
+            self.finalize()
+            raise
+        return issues + self.finalize()
